@@ -13,10 +13,16 @@ package twin
 // and the price-floor cases (CFloor).
 
 import (
+	"crypto/sha256"
 	"encoding/hex"
+	"encoding/json"
 	"fmt"
 	"math/big"
+	"os"
+	"os/exec"
+	"path/filepath"
 	"sort"
+	"strconv"
 	"strings"
 	"testing"
 	"time"
@@ -174,6 +180,54 @@ func resClass(tr *abci.ExecTxResult) string {
 	return fmt.Sprintf("%s/%d", tr.Codespace, tr.Code)
 }
 
+// what one execution of a block leaves for the comparison between PROCESSES (see freshProcess)
+type blockRec struct {
+	Index int       `json:"index"`
+	Raws  string    `json:"raw_txs_sha256"`
+	Proj  blockProj `json:"projection"`
+}
+
+func rawsDigest(raws [][]byte) string {
+	h := sha256.New()
+	for _, bz := range raws {
+		h.Write([]byte(strconv.Itoa(len(bz)) + ":"))
+		h.Write(bz)
+	}
+	return hex.EncodeToString(h.Sum(nil))
+}
+
+// freshProcess re-executes the whole history in ANOTHER operating-system process: this test binary started again with
+// the same seed and count, one replica, no request traffic, no restarts, another GOMAXPROCS, another wall-clock instant.
+// The generator is deterministic (one PRNG, state read from the executing application), so the child signs the same
+// transactions as long as its state is the same; it writes, per block, the digest of the raw transactions and the
+// projection of the block's consensus output.  Everything a process keeps in package-level variables (caches,
+// sync.Once, singletons) is shared by the replicas of THIS process and absent from the child.
+func freshProcess(t *testing.T, dir string, seed uint64, n int, straddleEnd int64) ([]blockRec, string) {
+	out := filepath.Join(dir, "fresh_process.json")
+	_ = os.Remove(out)
+	childDir := filepath.Join(dir, "fresh_process_out")
+	cmd := exec.Command(os.Args[0], "-test.run", "^TestDriverTwin$", "-test.count", "1", "-test.timeout", "1500s")
+	cmd.Env = append(os.Environ(), "VERIF_TWIN_CHILD="+out, "VERIF_OUT="+childDir, fmt.Sprintf("VERIF_SEED=%d", seed), fmt.Sprintf("VERIF_N=%d", n),
+		fmt.Sprintf("VERIF_TWIN_STRADDLE_END=%d", straddleEnd), "GOMAXPROCS=2")
+	log, err := cmd.CombinedOutput()
+	tail := string(log)
+	if len(tail) > 1500 {
+		tail = tail[len(tail)-1500:]
+	}
+	if err != nil {
+		return nil, "the child process failed: " + err.Error() + "\n" + tail
+	}
+	bz, err := os.ReadFile(out)
+	if err != nil {
+		return nil, "the child process left no record: " + err.Error() + "\n" + tail
+	}
+	var recs []blockRec
+	if err := json.Unmarshal(bz, &recs); err != nil {
+		return nil, "unreadable record: " + err.Error()
+	}
+	return recs, ""
+}
+
 func TestDriverTwin(t *testing.T) {
 	dir := OutDir(t)
 	seed := EnvSeed()
@@ -183,6 +237,14 @@ func TestDriverTwin(t *testing.T) {
 		k = 8
 	}
 	k = EnvInt("VERIF_TWIN_K", k)
+	childOut := os.Getenv("VERIF_TWIN_CHILD")
+	isChild := childOut != ""
+	if isChild {
+		k = 1
+	}
+	var recs []blockRec
+	var descs []blockDesc
+	var straddleUsed int64
 	rng := NewRng(seed)
 	side := NewSidecar("twin", seed,
 		"case = one block of the generated history (a destroy-heavy multi-call or a staking-precompile transfer() first, then 0-6 transactions of 17 kinds x 6 malformations x fee variants, "+
@@ -238,6 +300,11 @@ func TestDriverTwin(t *testing.T) {
 		case b == straddleAt:
 			special = "destroy-straddle"
 			straddleEnd = time.Now().Unix() + 2
+			if isChild {
+				// the vesting end the parent process drew (by now in the past of the wall clock)
+				straddleEnd = int64(EnvInt("VERIF_TWIN_STRADDLE_END", int(straddleEnd)))
+			}
+			straddleUsed = straddleEnd
 		case r.Chance(35):
 			special = "destroy"
 		case r.Chance(40):
@@ -313,7 +380,7 @@ func TestDriverTwin(t *testing.T) {
 		projs := make([]blockProj, len(w.reps))
 		var res0 *abci.ResponseFinalizeBlock
 		for i, rep := range w.reps {
-			if special == "destroy-straddle" {
+			if special == "destroy-straddle" && !isChild {
 				half := (len(w.reps) + 1) / 2
 				if i < half {
 					require.Lessf(t, time.Now().Unix(), straddleEnd, "the first replicas must run before the vesting end (wall clock)")
@@ -343,6 +410,8 @@ func TestDriverTwin(t *testing.T) {
 			classes = append(classes, resClass(tr))
 		}
 		desc := blockDesc{Index: b, Height: height, Special: special, Txs: gen, Classes: classes, Plan: plan, Replicas: w.describeCfgs()}
+		recs = append(recs, blockRec{Index: b, Raws: rawsDigest(raws), Proj: projs[0]})
+		descs = append(descs, desc)
 		agree := true
 		for i := 1; i < len(projs); i++ {
 			if class, tx, detail := firstDiff(projs[0], projs[i]); class != "" {
@@ -447,6 +516,38 @@ func TestDriverTwin(t *testing.T) {
 			canon = append(canon, g.Kind+"/"+g.Mal+"/"+classes[i])
 		}
 		side.Case(b, special+"|"+strings.Join(canon, ","), anyOk && (special != "none" || len(gen) >= 3), desc)
+	}
+	if isChild {
+		bz, err := json.Marshal(recs)
+		require.NoError(t, err)
+		require.NoError(t, os.WriteFile(childOut, bz, 0o644))
+		return
+	}
+	// ---- the same history in a fresh operating-system process
+	if EnvInt("VERIF_TWIN_FRESH_PROCESS", 1) != 0 {
+		child, problem := freshProcess(t, dir, seed, n, straddleUsed)
+		require.Emptyf(t, problem, "fresh process: %s", problem)
+		side.Count("fresh_process:blocks_compared")
+		side.Histogram["fresh_process:blocks_compared"] = 0
+		for i := range recs {
+			if i >= len(child) {
+				side.Hit("C01/twin/fresh_process/history_length", fmt.Sprintf("this process executed %d blocks, the fresh process %d", len(recs), len(child)), descs[i])
+				break
+			}
+			if class, tx, detail := firstDiff(recs[i].Proj, child[i].Proj); class != "" {
+				kind := "block"
+				if tx >= 0 && tx < len(descs[i].Txs) {
+					kind = descs[i].Txs[tx].Kind
+				}
+				side.Hit(fmt.Sprintf("C01/twin/%s/%s", class, kind),
+					fmt.Sprintf("block %d (height %d): replica 0 of this process and a FRESH PROCESS (one replica, no request traffic, never restarted) differ in %s of transaction %d (%s): %s",
+						recs[i].Index, descs[i].Height, class, tx, kind, detail), descs[i])
+				break
+			}
+			// same consensus output so far => same state => the deterministic generator must have produced the same block
+			require.Equalf(t, recs[i].Raws, child[i].Raws, "block %d: the fresh process generated other transactions from the same state: the generator is not deterministic", recs[i].Index)
+			side.Histogram["fresh_process:blocks_compared"]++
+		}
 	}
 	side.Extra["distinct_touched_enumerations"] = len(enumOrders)
 	if cases.Len() == 0 {
